@@ -16,7 +16,6 @@ import (
 	"io"
 	"os"
 	"os/exec"
-	"sort"
 	"strings"
 	"time"
 
@@ -25,12 +24,15 @@ import (
 )
 
 type input struct {
-	K     string `json:"k"` // walk | script
-	Seed  uint64 `json:"seed,omitempty"`
-	N     int    `json:"n,omitempty"`
-	Focus string `json:"focus,omitempty"`
-	Mode  string `json:"mode,omitempty"`
-	Name  string `json:"name,omitempty"`
+	K      string  `json:"k"` // labels | walk | script
+	Seed   uint64  `json:"seed,omitempty"`
+	N      int     `json:"n,omitempty"`
+	Focus  string  `json:"focus,omitempty"`
+	Mode   string  `json:"mode,omitempty"`
+	Name   string  `json:"name,omitempty"`
+	Setup  *setupT `json:"setup,omitempty"`  // k = labels: the schedule itself
+	Labels []label `json:"labels,omitempty"` // (the teardown is appended by the harness)
+	Origin string  `json:"origin,omitempty"` // where an explicit schedule came from
 }
 
 type childResult struct {
@@ -42,6 +44,9 @@ type childResult struct {
 	Direct     []string `json:"direct"`
 	Tags       []string `json:"tags"`
 	Restart    bool     `json:"restart"`
+	Setup      setupT   `json:"setup"`
+	Labels     []label  `json:"labels"`   // what was executed before the teardown, observed arms filled in
+	Diverged   int      `json:"diverged"` // recorded labels that could not be executed as recorded
 }
 
 // ---- child ----
@@ -84,6 +89,14 @@ func runCase(in input, emit func(string)) (res childResult) {
 	var setup setupT
 	var body func(w *world)
 	switch in.K {
+	case "labels":
+		setup = *in.Setup
+		ls := in.Labels
+		body = func(w *world) { w.replay(ls) }
+		res.Kind = in.Origin
+		if res.Kind == "" {
+			res.Kind = "labels"
+		}
 	case "script":
 		s, ok := scripts[in.Name]
 		if !ok {
@@ -131,6 +144,13 @@ func runCase(in input, emit func(string)) (res childResult) {
 	cur = nil
 	curMu.Unlock()
 	res.Direct = dedup(w.direct)
+	res.Setup, res.Labels, res.Diverged = setup, w.labels, w.diverged
+	if w.twoArm > 0 {
+		res.Tags = append(res.Tags, "monitor-select-two-arms")
+	}
+	if w.diverged > 0 {
+		res.Tags = append(res.Tags, "replay-diverged")
+	}
 	rejected := w.counts["recv-update"] - w.counts["store"]
 	res.Nontrivial = res.Res == 0 && ((w.counts["store"] >= 1 && rejected >= 1) ||
 		(w.counts["store"] >= 1 && w.counts["callback"] >= 2 && w.counts["op-register"] >= 1) ||
@@ -213,7 +233,8 @@ func spawnChild() *child {
 	return c
 }
 
-func run(raw json.RawMessage) driver.Result {
+// execChild runs one input in the child process
+func execChild(raw json.RawMessage) (driver.Result, *childResult) {
 	if theChild == nil {
 		theChild = spawnChild()
 	}
@@ -221,19 +242,13 @@ func run(raw json.RawMessage) driver.Result {
 	if _, err := c.in.Write(append(append([]byte{}, raw...), '\n')); err != nil {
 		panic(fmt.Sprint("child not accepting input: ", err))
 	}
-	var setup, verifs, init string
-	resCode := 0
+	var setup string
 	var steps []string
 	for c.out.Scan() {
 		line := c.out.Text()
 		switch {
 		case strings.HasPrefix(line, "H "):
 			setup = line[2:]
-		case strings.HasPrefix(line, "I "):
-			fmt.Sscanf(line[2:], "%d", &resCode)
-			verifs = line[4:]
-		case strings.HasPrefix(line, "J "):
-			init = line[2:]
 		case strings.HasPrefix(line, "S "):
 			steps = append(steps, line[2:])
 		case strings.HasPrefix(line, "E "):
@@ -249,14 +264,13 @@ func run(raw json.RawMessage) driver.Result {
 				c.cmd.Wait()
 				theChild = nil
 			}
-			_ = verifs
 			return driver.Result{
 				Coq:        fmt.Sprintf("CoreCase %s %s %d %s %s", setup, res.Verifs, res.Res, res.Init, coqfmt.List(steps)),
 				Kind:       res.Kind,
 				Nontrivial: res.Nontrivial,
 				Direct:     res.Direct,
 				Tags:       res.Tags,
-			}
+			}, &res
 		}
 	}
 	// the child died in the middle of a schedule
@@ -273,19 +287,60 @@ func run(raw json.RawMessage) driver.Result {
 		fmt.Fprintln(os.Stderr, "harness error: child died before starting the case:", tail)
 		os.Exit(2)
 	}
-	_ = init
 	return driver.Result{
 		Coq:    fmt.Sprintf("CoreCrash %s %s", setup, coqfmt.List(steps)),
 		Kind:   "crashed",
 		Direct: []string{"the process crashed during the schedule: " + strings.ReplaceAll(tail, "\n", " | ")},
 		Tags:   []string{"process-crash"},
+	}, nil
+}
+
+// results of the executions that produced the explicit schedules of this run
+var genCache = map[string]driver.Result{}
+
+func run(raw json.RawMessage) driver.Result {
+	if r, ok := genCache[string(raw)]; ok {
+		return r
 	}
+	// a replay: execute the recorded labels; where the monitor's select had two
+	// ready arms Go may choose differently - try again a few times
+	var res driver.Result
+	for attempt := 0; attempt < 6; attempt++ {
+		var cr *childResult
+		res, cr = execChild(raw)
+		if cr == nil || cr.Diverged == 0 {
+			break
+		}
+	}
+	return res
 }
 
 var focus = "C06"
 
+// explicit turns a walk / script input into a self-describing schedule by
+// running it; the execution's result is kept for this run
+func explicit(in input) json.RawMessage {
+	raw, _ := json.Marshal(in)
+	res, cr := execChild(raw)
+	if cr == nil {
+		// the process crashed: keep the generating input, the replay reproduces it
+		genCache[string(raw)] = res
+		return raw
+	}
+	origin := "walk-" + in.Mode
+	if in.K == "script" {
+		origin = "script-" + in.Name
+	}
+	out, _ := json.Marshal(input{K: "labels", Setup: &cr.Setup, Labels: cr.Labels, Origin: origin, Seed: in.Seed, N: in.N, Focus: in.Focus})
+	genCache[string(out)] = res
+	return out
+}
+
 func gen(r *coqfmt.Rng, n int, tier string) []json.RawMessage {
 	var out []json.RawMessage
+	for _, name := range scriptOrder {
+		out = append(out, explicit(input{K: "script", Name: name}))
+	}
 	for i := 0; i < n; i++ {
 		in := input{K: "walk", Seed: r.U64(), Focus: focus, Mode: "normal"}
 		switch x := r.Intn(20); {
@@ -295,6 +350,8 @@ func gen(r *coqfmt.Rng, n int, tier string) []json.RawMessage {
 			in.Mode = "shutdown"
 		case x < 5:
 			in.Mode = "nomon"
+		case x < 8:
+			in.Mode = "twoarms"
 		}
 		in.N = 20 + r.Intn(60)
 		if r.Chance(1, 10) {
@@ -306,17 +363,7 @@ func gen(r *coqfmt.Rng, n int, tier string) []json.RawMessage {
 		if r.Chance(1, 60) {
 			in.Mode, in.N = "overflow", 420+r.Intn(80)
 		}
-		b, _ := json.Marshal(in)
-		out = append(out, b)
-	}
-	return out
-}
-
-func corpus() []json.RawMessage {
-	var out []json.RawMessage
-	for _, n := range scriptOrder {
-		b, _ := json.Marshal(input{K: "script", Name: n})
-		out = append(out, b)
+		out = append(out, explicit(in))
 	}
 	return out
 }
@@ -338,13 +385,12 @@ func main() {
 		rest = append(rest, args[i])
 	}
 	os.Args = append([]string{os.Args[0]}, rest...)
-	sort.Strings(nil)
 	driver.Main(driver.Engine{
 		Prop: focus, CoqImport: "Dials.Core.CbMgr Dials.Core.Monitor Dials.Core.System Dials.Core.Concrete Dials.Check.CoreCheck Dials.Check." + focus + "Check", CoqRun: "run_cases",
 		Rule: "a schedule is a list of atomic steps of the real goroutines (monitor, callback goroutine, API calls) driven through the verif hooks; " +
 			"non-trivial = contains an installed and a rejected update, or a registered callback with >=2 callback invocations after a store, " +
 			"or a call that returned a context error after being cancelled mid-flight, or an EnableVerification together with an update; " +
 			"distinct = distinct (seed, length, mode) walk inputs and scripted regression schedules",
-		Gen: gen, Run: run, Corpus: corpus(),
+		Gen: gen, Run: run,
 	})
 }
